@@ -1,6 +1,7 @@
 #!/usr/bin/env python3
 # Regenerates /verif/MANIFEST.json from the table below (kept next to the design so the two stay in step).
-import json
+import json,subprocess
+HOOKS=[l.split()[0] for l in subprocess.run(['git','-C','/repo','log','--format=%h %s'],capture_output=True,text=True).stdout.splitlines() if 'verif hooks' in l]
 props=[json.loads(l) for l in open('/verif/properties.jsonl')]
 ids=[p['id'] for p in props]
 TB="trusted: SMT solvers sound for unsat; Go compiler/runtime semantics as encoded (DESIGN.md s5); native models of dependency functions listed in the evidence file; lengths <= 2^40; non-nil non-aliasing pointer parameters"
@@ -23,7 +24,7 @@ for i in ids:
         na.pop(i)
 m={"version":1,
  "setup_cmd":"cd /verif/engine && GOFLAGS=-mod=mod GOPROXY=off GOSUMDB=off GOTOOLCHAIN=local go build -o /verif/bin/bmcvc .",
- "hooks":{"guard":"verif","enable":"the engine loads /repo with -tags=verif and overlays the contract files of /verif/contracts (byte-identical copies are committed in /repo as zz_contracts*_verif.go / zz_prelude_verif.go)","baseline_off_cmd":"cd /repo && go test -vet=off -count=1 ./...","source_commits":[],"add_only":True},
+ "hooks":{"guard":"verif","enable":"the engine loads /repo with -tags=verif and overlays the contract files of /verif/contracts (byte-identical copies are committed in /repo as zz_contracts*_verif.go / zz_prelude_verif.go)","baseline_off_cmd":"cd /repo && go test -vet=off -count=1 ./...","source_commits":HOOKS,"add_only":True},
  "engines":[{"name":"bmcvc","path":"/verif/engine","serves_properties":sorted(claimed),"kind_free_text":"contract-based deductive verifier for Go written for this task: go/packages+go/ssa of /repo's working tree -> passive weakest-precondition VCs (bit-vector integers, typed field-array heap) -> SMT-LIB, raced on z3 5.1.0 / z3 4.8.12 / cvc5 1.0.3; counterexamples replayed against the real code with go test -overlay"}],
  "checks":checks,
  "not_applicable":[{"property_id":i,"reason":r} for i,r in na.items()],
